@@ -5,19 +5,43 @@ R = os.path.dirname(os.path.dirname(os.path.abspath(__file__)))
 props = [json.loads(l) for l in open(os.path.join(R, "properties.jsonl"))]
 
 TEXT = {
- "C01": ("Theorems: conditional SMC (retained path, any number of particles and steps, any symmetric adaptive resampling rule) leaves the target invariant; the auxiliary data-order mixture preserves invariance. The executable Lean model of ParticleGibbsTreeSampler.sample_tree is compared, transition row by transition row, with the exact kernel of the real code (every outcome of every draw enumerated), for both the run-command wiring and the library wiring; an independent oracle checks pi K = pi on every enumerated configuration.",
-         "exact-kernel correspondence + Lean theorem (abstract CSMC invariance)"),
- "C02": ("Theorem for every forest, sample and grid index: the root likelihood vector equals the prior times the brute-force sum over all feasible index assignments (exact arithmetic). Correspondence: every clone's cached vectors of real trees vs the model; float clauses (floor, FFT switch, finiteness) by numerical comparison against extended precision.",
+ "C01": ("Theorems (Props/C01): conditional SMC with the retained path in slot 0 leaves the level-T target invariant for every number of particles, every number of steps and every symmetric adaptive resampling rule (csmc_invariant); drawing the data order from u(x,.) and then applying a kernel invariant for pi*u(.,sigma) leaves pi invariant (aux_mixture_invariant); further theorems listed in the evidence. The executable Lean model of ParticleGibbsTreeSampler.sample_tree (and of the burn-in SMC) is compared, transition row by transition row, with the exact kernel of the real code (every outcome of every draw enumerated) for the run-command wiring and the library wiring; an independent oracle checks pi K = pi to 1e-10 on every enumerated configuration.",
+         "Lean theorem (CSMC invariance) + exact-kernel correspondence"),
+ "C02": ("Theorems for every forest, sample and grid index: the root likelihood vector equals the prior times the brute-force sum over all feasible index assignments; it is positive for positive data and independent of sibling order (exact arithmetic). Correspondence: every clone's cached vectors and the root vector of real trees vs the model and vs an independent brute force; float clauses (floor 1e-100, never below exact, FFT switch at 1000, finiteness) by comparison with extended precision.",
          "Lean theorem (recursion = brute-force marginal) + differential check"),
- "C03": ("Executable Lean model of the two FS-CRP joint densities compared with the real log_p / log_p_one / fused variant on trees realised through several construction histories; independent Python transcription of the property's formula as oracle; equality/hash vs (clades, outliers).",
-         "Lean model + differential check over construction histories"),
- "C04": ("Theorems: block-Gibbs invariance and sweep composition. Executable Lean models of the data-point, prune-regraft and random-subtree moves are compared row by row with the exact kernels of the real samplers; oracle pi K = pi on every configuration of the first two moves; the subtree move's unconditional invariance is false (known finding F7, pinned instances).",
-         "exact-kernel correspondence + Lean theorem (block Gibbs)"),
- "C08": ("Executable Lean model of the three proposals (table mirroring log_p, Dist mirroring sample, incremental weights) compared with the real code on enumerated and random parent states; oracles: probabilities sum to one, sampled = reported, complete support, telescoping weight identity along random paths.",
-         "Lean model + exact-distribution differential check"),
+ "C03": ("Theorems: both joint densities are invariant under sibling reordering, reordering inside clones and of the outlier list; the canonical form is density-preserving and a complete tree key (treeKey_iff); densities are positive (finite logs) for positive data; the outlier marginal is the single-clone marginal. Correspondence: log_p / log_p_one / fused variant / TreeHolder on trees realised through six construction histories vs the model; oracle = independent transcription of the property's formula; ==/hash vs (clades, outliers).",
+         "Lean theorem (density depends only on the tree) + differential check"),
+ "C04": ("Theorems: the data-point Gibbs scan and the prune-regraft move of the executable model leave pOne invariant on every well-formed closed state list (dataPointMove_invariant, pruneRegraft_invariant), any sequence of invariant kernels is invariant. The models of all three moves are compared row by row with the exact kernels of the real samplers; oracle pi K = pi per configuration. The random-subtree move's unconditional invariance is FALSE of model and code: known finding F7 (pinned instances, exact bias signature); level is `other` for that reason.",
+         "Lean theorem (block Gibbs on the model) + exact-kernel correspondence; known finding F7"),
+ "C05": ("Theorems: genotype list = PyClone major-copy-number prior; expected VAF in (0,1); binomial and beta-binomial (Pochhammer form, Chu-Vandermonde) pmfs sum to one; the genotype mixture sums to one over all alternate counts and is positive; grid entry = mixture at CCF k/(G-1); cluster grid = product of members; outlier terms = per-mutation terms to the power of the cluster size. Correspondence: load_data on generated input files vs the model and vs a Fraction oracle.",
+         "Lean theorem + differential check against load_data"),
+ "C06": None, "C07": None, "C15": None,
+ "C08": ("Theorems for all three proposals, every parent state and data point: reported probabilities sum to one, every placement is in the support with positive probability, the sampler draws each tree with exactly the reported probability, weights and proposal probabilities telescope to pOne*pdf along every path, parents are unique. Correspondence: log_p of every placement, exact distribution of sample() and particle weights vs the model; oracles: normalisation, sampled = reported, complete support, telescoping on random paths.",
+         "Lean theorem + exact-distribution differential check"),
  "C09": ("Theorems for every tree with distinct data: the enumerated orders are exactly the compatible ones (sound, complete, no duplicates), the code's count equals their number, the sampler is uniform on them, the density is 1/count. Correspondence: exact distribution of the real sampler and log_pdf vs the model; brute force over all permutations as oracle.",
          "Lean theorem + exact-distribution differential check"),
+ "C10": ("Theorems on the line-by-line model of map.py: the traceback is on the grid, feasible (child-sum constraint, top-level total <= G-1) and optimal among all feasible assignments; the root value is the maximum; clonal prevalence is non-negative (exact). Correspondence: indices one-to-one on exactly representable inputs (ties included), objective values on API-built trees; brute-force maximum as oracle.",
+         "Lean theorem + differential check"),
+ "C11": ("Theorems on the trace model (any key type, any linearly ordered score): the MAP pick attains the maximum and is permutation-invariant up to ties; the frequency pick has maximal count; topology rows are distinct, counts exact and summing to the number of entries, scores are per-topology maxima attained at the recorded pointer, rows sorted; the archive is the top-k. Correspondence: the real commands on synthetic and sampled traces.",
+         "Lean theorem + differential check against the CLI commands"),
+ "C12": ("Theorems on the table model: rows are a permutation of mutations x samples, clone ids are tree nodes or -1, clusters share a clone, CCF/prevalence are the clone's values or -1, and the table is defined for every tree incl. all-outlier and empty-clone trees. Correspondence: TABLE.tsv / Newick of the three commands, clustered and unclustered, on synthetic traces and real runs.",
+         "Lean theorem + differential check against the CLI commands"),
+ "C13": ("Theorems over the reals (Mathlib): parameters of the three draws, mixture density identity, both exact conditionals, eta-marginal, and conc_gibbs: the two-stage kernel leaves the measure with density target(a,b,K,n) invariant (from a general two-stage Gibbs theorem over s-finite measures). K, n extraction and value-in-force proved on the model. Level `other` because of known finding F12 (the 1e-10 floor censors the draw) and because scipy's samplers are trusted. Correspondence: parameters recorded at the real scipy calls, K/n passed by the run loop, trace alphas.",
+         "Lean theorem (measure-theoretic Gibbs step) + recorded-parameter correspondence; known finding F12"),
+ "C14": ("Theorems: keyed LRU memo table with evictions, clears and a changing environment returns the unmemoised value for every history provided the function respects the key; the children-convolution recursion respects its multiset key, the pairwise convolution its unordered-pair key, the proposal table and new-clone tree their (data point, kernel parameters, parent, alpha) keys. Correspondence: every call of the five cached functions in real runs shadowed by the unmemoised original; lru_cache hit/miss behaviour vs the model.",
+         "Lean theorem (memo soundness) + shadow comparison"),
+ "C16": ("Theorems on the executable consensus model: majority clades (threshold >= 1/2, counts or weights) are laminar, the inconsistent-clades branch is unreachable, own sets are clade minus sub-clades, the built tree's clades are exactly the majority clades, uncovered data are reported as -1, the run succeeds on the domain. Correspondence: get_consensus_tree / write_consensus_results on random mixtures; oracle recomputes supports with Fractions.",
+         "Lean theorem + differential check"),
+ "C17": ("Theorems on the loader model: result invariant under every permutation of the rows; kept iff exactly one usable row per sample (under the stated non-degeneracy), degenerate mixes rejected; numbering sorted; defaults; major < minor rejected; cluster path. Correspondence: load_data / load_pyclone_data on generated files; oracle recomputation and reload under permutations.",
+         "Lean theorem + differential check"),
+ "C18": ("Logic core proved (collected map independent of completion order, chain isolation, single-chain quirk); the model cannot exhibit OS scheduling, hash seeds or process state, so the property is decided by a runtime differential: the real CLI under varied PYTHONHASHSEED, CPU affinity, chain counts and injected start/finish orders must give bit-identical per-chain traces; plus a static scan for ambient randomness.",
+         "runtime differential + Lean proof of the collection logic"),
+ "C19": ("Guards proved on the run-loop model (retained-particle lookup in range, subtree choice non-empty or fallback, weights positive so normalisation never divides by zero, schedule total); arbitrary Python exceptions cannot be excluded by a model, so the property is decided by running run_phyclone_chain over the cross-product of boundary option values (and the CLI end to end) with an oracle on every trace entry.",
+         "boundary cross-product exploration + Lean proof of the guards"),
+ "C20": ("Every prefix length of sampled real trace files is fed to the three reader commands: outcome must be an error or byte-identical to the full file, monotone in the prefix length; crash points of the single write are simulated. Framing theorems (self-delimiting serialiser, stream container, read_prefix_safe) proved on the model under explicit lawfulness assumptions about gzip/pickle.",
+         "exhaustive fault enumeration + Lean framing proof"),
 }
+TEXT = {k: v for k, v in TEXT.items() if v}
 DEFAULT_NOTE = ("Trusted: Lean 4.33 kernel (axioms per theorem printed and required within propext / Classical.choice / Quot.sound), the "
                 "hand-written model's correspondence to /repo as checked on this run's generated inputs, the enumerating stand-in for "
                 "numpy's Generator, IEEE/numpy/scipy/rustworkx/pandas numerics and containers (modelled, not verified).")
